@@ -16,6 +16,7 @@ pub mod c14;
 pub mod c15;
 #[cfg(not(feature = "inproc"))]
 pub mod c16;
+pub mod c17;
 #[cfg(not(feature = "inproc"))]
 pub mod c18;
 pub mod c19;
@@ -53,6 +54,7 @@ table! {
     "C15" => c15::C15,
     #[cfg(not(feature = "inproc"))]
     "C16" => c16::C16,
+    "C17" => c17::C17,
     #[cfg(not(feature = "inproc"))]
     "C18" => c18::C18,
     "C19" => c19::C19,
